@@ -233,6 +233,7 @@ def write(detector, spec, salt=0, spec_odd=None, track=False):
       signal: {"dtype": .., "const": bool, "mul": k}
       image:  {"dtype": "uint16", "vals": "ramp"|"edge"|"big", "const": bool}
       scene:  true,  data: "flat"|"nested"
+      signal / image / pixel: {"recast": dtype}   re-assign the present values with another dtype
     'const': the value does not depend on the step; 'mul': multiply the value by k."""
     import xarray as xr
 
@@ -245,7 +246,12 @@ def write(detector, spec, salt=0, spec_odd=None, track=False):
         opt = opt if isinstance(opt, dict) else {}
         st = 0 if opt.get("const") else step
         mul = opt.get("mul", 1)
-        if b == "photon":
+        if opt.get("recast"):
+            # same values, another dtype (e.g. a model that widens the image type): a dtype-only change of the bucket
+            old = container_value(getattr(detector, b))
+            if old is not None:
+                getattr(detector, b).array = np.asarray(old).astype(opt["recast"])
+        elif b == "photon":
             v = value_for("photon", st, shape, salt) * mul
             dt = opt.get("dtype", "float64")
             nwl = int(opt.get("wl", 0))
